@@ -51,7 +51,7 @@ const ecSignerID = int64(4)
 
 func certOfAny(id int64) *x509.Certificate {
 	if id == ecSignerID {
-		return fix.Cert("ec_256")
+		return cachedCert("ec_256")
 	}
 	return certOf(id)
 }
@@ -370,8 +370,22 @@ func (p stubSessions) GetSession(http.ResponseWriter, *http.Request, *saml.IdpAu
 // key pairs by identifier
 var keyNames = map[int64]string{1: "rsa_a", 2: "rsa_b", 3: "rsa_c"}
 
-func keyOf(id int64) *rsa.PrivateKey    { return fix.RSAKey(keyNames[id]) }
-func certOf(id int64) *x509.Certificate { return fix.Cert(keyNames[id]) }
+func keyOf(id int64) *rsa.PrivateKey { return fix.RSAKey(keyNames[id]) }
+
+// certificates are parsed once: the same *x509.Certificate value is handed out for a key every time, the
+// way an application keeps its certificate object while it rotates other settings
+var certCache = map[string]*x509.Certificate{}
+
+func cachedCert(name string) *x509.Certificate {
+	if c, ok := certCache[name]; ok {
+		return c
+	}
+	c := fix.Cert(name)
+	certCache[name] = c
+	return c
+}
+
+func certOf(id int64) *x509.Certificate { return cachedCert(keyNames[id]) }
 
 func mustURL(s string) url.URL {
 	u, err := url.Parse(s)
